@@ -8,6 +8,7 @@ into a real zope.interface.registry.Components under both implementations.
 specification on and expects TLC to refute the invariants."""
 import json
 import sys
+from concurrent.futures import ThreadPoolExecutor
 
 from common import (Build, MachineryError, Verdict, graph_paths, make_cfg,
                     run_children, run_tlc, seed, shard, split_behaviours,
@@ -17,7 +18,7 @@ BASE = dict(Defect='"none"', Ops='<-None', UKeys='<-None', UComps='<-None',
             UInfos='<-I0', UFacs='<-Fac0', EvFlags='<-EvT', AKeys='<-None',
             AFacts='<-None', AInfos='<-I0', SKeys='<-None', SFacts='<-None',
             SInfos='<-I0', HKeys='<-None', HFacts='<-None', HInfos='<-I0',
-            MaxLive=3, MaxDepth=100)
+            MaxLive=3, MaxDepth=100, MaxEpoch=0)
 
 
 def cfgd(**kw):
@@ -29,6 +30,9 @@ def cfgd(**kw):
 # the subscription counter: one provided interface, three names, equal /
 # identical / hashable / unhashable components, re-initialisation
 COUNTER = cfgd(Ops='<-OpsU', UKeys='<-UKeysNames', UComps='<-CompsEq')
+# calls on a re-initialised object (states after __init__ kept distinct)
+REINIT = cfgd(Ops='<-OpsU', UKeys='<-UKeysTwo', UComps='<-CompsReinit',
+              MaxLive=2, MaxEpoch=1)
 # provided chain PB(PA), info (replacement of an equal component), utility
 # factories, event=False
 CHAIN = cfgd(Ops='<-OpsU', UKeys='<-UKeysChain', UComps='<-CompsChain',
@@ -58,22 +62,28 @@ PROPS = ['ListingsExact', 'EventsExact', 'ReturnValueExact']
 PLAN = {
     'quick': [
         ('counter live<=3', 'edges', COUNTER, {}),
-        ('chain live<=2', 'edges', CHAIN, {}),
+        ('after re-init live<=2', 'edges', REINIT, {}),
+        ('chain live<=2 event=True', 'edges', dict(CHAIN, EvFlags='<-EvT'),
+         {}),
         ('adapters+subscriptions live<=2', 'edges', ADAPT, {}),
         ('subscriptions+handlers live<=3', 'edges',
          dict(SUBS, SFacts='<-F12'), {}),
         ('everything sim', 'sim', EVERYTHING, dict(num=60, depth=40)),
     ],
     'thorough': [
-        ('counter live<=4', 'edges', dict(COUNTER, MaxLive=4), {}),
+        ('counter live<=3', 'edges', COUNTER, {}),
+        ('counter PA x3 names + PB live<=3', 'edges',
+         dict(COUNTER, UKeys='<-UKeysNamesB'), {}),
+        ('after re-init live<=3', 'edges',
+         dict(REINIT, UKeys='<-UKeysNames', MaxLive=3), {}),
         ('chain live<=2', 'edges', CHAIN, {}),
         ('chain unhashable live<=3', 'edges', CHAINU, {}),
         ('adapters+subscriptions live<=3', 'edges',
          dict(ADAPT, MaxLive=3), {}),
         ('subscriptions+handlers live<=3', 'edges', SUBS, {}),
-        ('everything sim', 'sim', EVERYTHING, dict(num=4000, depth=60)),
+        ('everything sim', 'sim', EVERYTHING, dict(num=2500, depth=60)),
         ('utilities sim', 'sim',
-         dict(EVERYTHING, Ops='<-OpsU', MaxLive=6), dict(num=2000, depth=60)),
+         dict(EVERYTHING, Ops='<-OpsU', MaxLive=6), dict(num=1500, depth=60)),
     ],
 }
 
@@ -120,8 +130,8 @@ def run_replay(build, v, cases):
     v.cov['traces_validated_against_impl'] += 2 * len(cases)
 
 
-def tlc(build, consts, kind, opt, tier):
-    cfg = make_cfg(build.dir, 'comp', consts, view='View',
+def tlc(build, consts, kind, opt, idx=0):
+    cfg = make_cfg(build.dir, 'comp%d' % idx, consts, view='View',
                    constraint='Bound', action_constraint='Emit',
                    invariants=INVS + ['DumpState'], properties=PROPS)
     if kind == 'edges':
@@ -155,7 +165,10 @@ def main(pid, tier):
         'the rebuild probe compared after the transition, events and return '
         'value after every step of the path) and -simulate behaviours '
         '(everything compared after every step), x 2 implementations; '
-        'non-trivial = the call sequence has at least three calls')
+        'non-trivial = the call sequence has at least three calls; '
+        'exhaustive refers to the bounded configurations (all reachable '
+        'states, all transitions replayed), the -simulate behaviours are '
+        'additional samples of longer mixed histories')
     v.assumptions = [
         'bounded universe: 5 components (2 equal hashable, 2 equal '
         'unhashable), PB(PA), names "", "n", "m", R2(R1), 3 factories '
@@ -173,9 +186,15 @@ def main(pid, tier):
         'factory (arguments omitted), __bases__ of Components and '
         'subclass hooks are outside the universe']
     exhaustive = True
-    with Build() as build:
-        for (name, kind, consts, opt) in PLAN[tier]:
-            res = tlc(build, consts, kind, opt, tier)
+    plan = PLAN[tier]
+    with Build() as build, ThreadPoolExecutor(max_workers=4) as pool:
+        # the simulator is single-threaded: let those runs proceed in the
+        # background while the exhaustive configurations are processed
+        pending = {i: pool.submit(tlc, build, c, k, o, i)
+                   for i, (_, k, c, o) in enumerate(plan) if k == 'sim'}
+        for i, (name, kind, consts, opt) in enumerate(plan):
+            res = pending[i].result() if i in pending else \
+                tlc(build, consts, kind, opt, i)
             v.add_tlc(res, name)
             if res.violated:
                 raise MachineryError(
@@ -225,7 +244,6 @@ def main(pid, tier):
                     cases.append({'steps': [step(x, True) for x in beh]})
                     if len(beh) >= 3:
                         v.cov['distinct_nontrivial'] += 1
-                exhaustive = False if tier == 'quick' else exhaustive
             run_replay(build, v, cases)
             if cases:
                 v.sample({'config': name, 'behaviour': [
